@@ -12,9 +12,19 @@ N = ('N', frozenset())
 MASK = ('MASK', frozenset())
 BELOW = set('jb jbe jnae jna jc'.split())
 ABOVE = set('jae ja jnb jnbe jnc'.split())
+VECTOR_KERNELS = ['gen_icf_map_lh1_04', 'gen_icf_map_lh1_06']
 SCALAR_KERNELS = ['isal_deflate_body_01', 'isal_deflate_body_02', 'isal_deflate_body_04', 'isal_deflate_finish_01',
                   'isal_deflate_icf_body_hash_hist_01', 'isal_deflate_icf_body_hash_hist_02', 'isal_deflate_icf_body_hash_hist_04',
                   'isal_deflate_icf_finish_hash_hist_01']
+
+
+def vname(o):
+    if not o:
+        return None
+    m = VREG.match(re.sub(r'\{[^}]*\}', '', o).strip())
+    if not m:
+        return None
+    return 'v' + re.sub(r'^[xyz]mm', '', re.sub(r'\{[^}]*\}', '', o).strip())
 
 
 def HD(ids):
@@ -70,6 +80,87 @@ def analyse(u, f, mask_disp):
                             if bad:
                                 viol[a] = (i, tuple(sorted(bad)))
         newflags = flags
+        # ---- vector instructions (AVX2 / AVX-512 match finders): candidates gathered from the hash table, masks broadcast from dist_mask
+        vops = [vname(o) for o in ops]
+        if any(v is not None for v in vops) and not (mn in ('vmovd', 'vmovq', 'movd', 'movq') and ops and ops[0] in REG64):
+            for k, o in enumerate(ops):
+                if is_mem(o):
+                    m = parse_mem(o)
+                    ix = vname(m['index']) if m['index'] else None
+                    if ix is not None:
+                        v = regs.get(ix, N)
+                        if v[0] == 'HD':
+                            bad = [x for x in v[1] if x not in guarded]
+                            if bad and not (mn.startswith('vpgatherdd') and m['scale'] == 2):
+                                viol[a] = (i, tuple(sorted(bad)))
+                                nsink += 1
+            d = vops[0]
+            srcs = ops[1:]
+            memsrc_ = [o for o in srcs if is_mem(o)]
+
+            def vty(o):
+                if is_mem(o):
+                    m = parse_mem(o)
+                    if m['disp'] == mask_disp and not m['index'] and m['base'] in REG64 and m['size'] == 4:
+                        nmask.add(a)
+                        return MASK
+                    s_ = ('slot', m['disp']) if m['base'] == 'rsp' and not m['index'] else None
+                    return regs.get(s_, N) if s_ else N
+                if o in REG64:
+                    return regs.get(REG64[o][0], N)
+                vn = vname(o)
+                return regs.get(vn, N) if vn else N
+            if d is not None:
+                if mn.startswith(('vpgatherdd', 'vpgatherqd')) and memsrc_ and parse_mem(memsrc_[0])['scale'] == 2:
+                    regs[d] = HD([a])
+                    nsrc.add(a)
+                elif mn.startswith(('vpbroadcast', 'vmovd', 'vmovq', 'vmovdq', 'vmova', 'vmovu', 'movdq', 'vextract', 'vinsert', 'vperm', 'vpshuf', 'vshuf', 'valign', 'vpalign')) and srcs:
+                    ts = [vty(o) for o in srcs if not re.match(r'^(0x[0-9a-f]+|\d+)$', o)]
+                    t = N
+                    for x in ts:
+                        t = x if t == N else (jn(t, x) if x != N else t)
+                    regs[d] = t
+                elif mn in ('vpand', 'vpandd', 'vpandq', 'pand') and len(srcs) >= 1:
+                    ts = [vty(o) for o in (srcs if len(srcs) == 2 else [ops[0]] + srcs)]
+                    kinds = {t[0] for t in ts}
+                    if 'HD' in kinds and 'MASK' in kinds:
+                        regs[d] = N
+                        nguard.add(a)
+                    elif 'HD' in kinds:
+                        regs[d] = jn(*[t if t[0] == 'HD' else HD([]) for t in ts]) if len(ts) == 2 else ts[0]
+                    elif kinds == {'MASK'}:
+                        regs[d] = MASK
+                    else:
+                        regs[d] = N
+                else:
+                    ts = [vty(o) for o in srcs if not re.match(r'^(0x[0-9a-f]+|\d+)$', o)]
+                    hd = [t for t in ts if t[0] == 'HD']
+                    if hd:
+                        t = hd[0]
+                        for x in hd[1:]:
+                            t = jn(t, x)
+                        regs[d] = t
+                    else:
+                        regs[d] = N
+            elif ops and is_mem(ops[0]) and len(ops) > 1:
+                m = parse_mem(ops[0])
+                if m['base'] == 'rsp' and not m['index']:
+                    regs[('slot', m['disp'])] = N
+            succs = [(n_, frozenset()) for n_ in u.succ(f, a)]
+            for n, extra in succs:
+                ns = (regs, guarded | extra, flags)
+                if n not in IN:
+                    IN[n] = ns
+                    work.append(n)
+                else:
+                    oregs, og, ofl = IN[n]
+                    nr = {k: jn(oregs.get(k, N), regs.get(k, N)) for k in set(oregs) | set(regs)}
+                    ng = og & (guarded | extra)
+                    nf = ofl if ofl == flags else None
+                    if nr != oregs or ng != og or nf != ofl:
+                        IN[n] = (nr, ng, nf)
+                        work.append(n)
+            continue
         dst = REG64.get(ops[0]) if ops else None
         memsrc = len(ops) > 1 and is_mem(ops[1])
 
@@ -104,6 +195,9 @@ def analyse(u, f, mask_disp):
                 newflags = None
         elif mn == 'test':
             newflags = None
+        elif mn in ('vmovd', 'vmovq', 'movd', 'movq') and dst and len(ops) == 2:
+            vn = vname(ops[1])
+            regs[dst[0]] = regs.get(vn, N) if vn else N
         elif mn in ('mov', 'movzx', 'movsx', 'movsxd'):
             if dst:
                 if memsrc:
@@ -236,10 +330,10 @@ def analyse(u, f, mask_disp):
 
 
 def check(rep):
-    R = rep.rule('R-DISTGUARD-ASM', 'asm match finders: every value derived from a 16-bit hash-table entry is AND-ed with, or compared against (in-range edge), a value loaded from the dist_mask field before it is used in a memory address', floor=8, unit='kernels')
+    R = rep.rule('R-DISTGUARD-ASM', 'asm match finders (8 scalar kernels, 2 vector kernels with gathers): every value derived from a 16-bit hash-table entry is AND-ed with, or compared against (in-range edge), a value loaded from the dist_mask field before it is used in a memory address', floor=10, unit='kernels')
     res, _ = provenance.analyse('default')
     off = kernels.offsets()['deflate']['_internal_state_dist_mask']
-    for sym in SCALAR_KERNELS:
+    for sym in SCALAR_KERNELS + VECTOR_KERNELS:
         info = res.get(sym)
         if info is None:
             raise AnalysisBroken('asm match finder %s not found' % sym)
